@@ -274,6 +274,36 @@ def _wrap_channel(conn, log, is_async):
                 return w
         setattr(ch, name, mk())
 
+    # the driver layer (`send_commands`: loop, failed_when_contains, stop_on_failed): the `send_input` calls its loop made are folded
+    # into ONE entry, replayed on the model's `sendCommands`; what ran before the loop (privilege acquisition) stays channel-level
+    orig_sc = conn.send_commands
+
+    def fold(a, kw, r):
+        cmds = kw.get("commands", a[0] if a else None)
+        n = len(r)
+        if (not isinstance(cmds, list) or not cmds or n == 0 or kw.get("eager") or kw.get("eager_input") or len(log) < n
+                or any(e[0] != "send_input" or (isinstance(e[3], tuple) and e[3] and e[3][0] == "EXC") for e in log[-n:])):
+            return
+        inner = log[-n:]
+        if [e[2].get("channel_input", e[1][0] if e[1] else None) for e in inner] != cmds[:n]:
+            return
+        del log[-n:]
+        fwc = r[0].failed_when_contains or []
+        log.append(("send_commands", (), {"commands": list(cmds), "strip_prompt": kw.get("strip_prompt", True),
+                                          "stop_on_failed": kw.get("stop_on_failed", False), "fwc": list(fwc), "_nw": inner[0][2].get("_nw", 0)},
+                    [(e[3][1], x.failed) for e, x in zip(inner, r)]))      # processed bytes of the channel call, flag of the Response
+    if is_async:
+        async def sc_w(*a, **kw):
+            r = await orig_sc(*a, **kw)
+            fold(a, kw, r)
+            return r
+    else:
+        def sc_w(*a, **kw):
+            r = orig_sc(*a, **kw)
+            fold(a, kw, r)
+            return r
+    conn.send_commands = sc_w
+
 
 def run_real(sc: Scenario) -> RunResult:
     """drive the real driver; never raises (records)"""
@@ -418,6 +448,8 @@ def _do(conn, op, is_async):
     if k == "send_command":
         return conn.send_command(op[1], strip_prompt=op[2], eager_input=op[3] if len(op) > 3 else False)
     if k == "send_commands":
+        if len(op) > 4:
+            return conn.send_commands(list(op[1]), strip_prompt=op[2], stop_on_failed=op[3], failed_when_contains=list(op[4]))
         return conn.send_commands(list(op[1]), strip_prompt=op[2])
     if k == "send_and_read":
         return conn.send_and_read(op[1], expected_outputs=list(op[2]), strip_prompt=op[3], read_duration=100000)
@@ -478,6 +510,9 @@ def model_request(sc: Scenario, res: RunResult) -> Optional[str]:
             ci = kw.get("channel_input", a[0] if a else "")
             fl = "".join("1" if kw.get(k, d) else "0" for k, d in (("strip_prompt", True), ("eager", False), ("eager_input", False)))
             ops.append(f"si:{hexs(ci.encode())}:{fl}")
+        elif name == "send_commands":
+            ops.append(f"sc:{'1' if kw['strip_prompt'] else '0'}{'1' if kw['stop_on_failed'] else '0'}:{hexl([m.encode() for m in kw['fwc']])}:"
+                       f"{hexl([c.encode() for c in kw['commands']])}")
         elif name == "send_input_and_read":
             # the timed read loop: expected outputs, the compiled `_join_and_compile(outputs)` pattern, and which iterations of the
             # loop had their transport read time out (trace events between the return of this call and the next write)
@@ -536,6 +571,8 @@ def real_reply(res: RunResult) -> str:
             parts.append(f"gp={hexs(r.encode())}")
         elif name == "send_input":
             parts.append(f"si={hexs(r[0])},{hexs(r[1])}")
+        elif name == "send_commands":
+            parts.append("sc=" + ",".join(f"{hexs(x[0])}/{'1' if x[1] else '0'}" for x in r))
         elif name == "send_input_and_read":
             parts.append(f"sar={hexs(r[0])},{hexs(r[1])}")
         else:
